@@ -14,6 +14,12 @@ C11 - socket reads are independent of how the network segments the data.
      socket.socket subclass: long mixed streams x random partitions x bufsize
      {1, 7, 512, 4096} x failures; every recv, every return value and the
      public buffer after it must be the ones the spec computes.
+ (D) SockFramer.tla, the composition reader-over-wrapper: TLC exhaustive over
+     every source of up to 2-3 items x every partition x timeouts at item
+     boundaries x options (the reader over the wrapper delivers what the reader
+     over a file delivers); TLC-simulated behaviours of the same module are
+     replayed on the real RTCMReader over the real SocketWrapper and the
+     observable outputs compared (sockframer.py).
  (C) segmentation independence on the real code: the same stream and call
      sequence under different partitions gives identical results; the reader
      over a socket (auto-wrapped) delivers the same messages as over a file
@@ -47,6 +53,15 @@ def run(tier, rep):
         sock_replay.replay_graph(rep, bufsize=3, maxlen=4)
     rnd = rng("c11")
     bundle = de.real_bundle()
+    # (D) the composition reader-over-wrapper (SockFramer.tla): exhaustive TLC + behaviours replayed on the real code
+    from .. import framer_engine, sockframer
+
+    mids = framer_engine.defined_mids(bundle)
+    sockframer.mc(rep, items=2 if quick else 3, bufsize=3 if quick else 4, fails=1 if quick else 2, mids=mids, heap="3g" if quick else "6g")
+    sockframer.replay(rep, num=300 if quick else 4000, items=3, bufsize=3, fails=2, mids=mids)
+    if not quick:
+        sockframer.replay(rep, num=2000, items=4, bufsize=1, fails=2, mids=mids)
+        sockframer.replay(rep, num=2000, items=4, bufsize=7, fails=3, mids=mids)
     pool = stream_corpus.payload_pool(bundle, "c11", 60)
     tr = sock_engine.SockTraces(rep, False)
     n = 40 if quick else 400
